@@ -277,6 +277,27 @@ theorem check_equal_symm_of_symm (close : Rat → Rat → Bool) (hs : ∀ x y, c
 theorem npclose_not_symmetric :
     npClose 1000 (10000100001 / 10000000) = true ∧ npClose (10000100001 / 10000000) 1000 = false := npClose_not_symm
 
+/-- HISTORY INDEPENDENCE: whatever happened to ONE image object before — conversions requested any number of times
+(`touch`), `reset_origin()`, assignments of `origin` / `dimensions`, in any order and number — the coordinate system
+it hands out afterwards is the one of its CURRENT fields: the geometry stays well formed, so every theorem of this
+file applies to it; in particular voxel zero maps to the current origin and voxel centres round-trip.
+(A coordinate system cached across a change of the origin violates exactly this.) -/
+theorem coordinatesystem_tracks_state (cs cs' : CS) (hcs : cs.ok) (ops : List GeomOp)
+    (hops : ∀ op ∈ ops, op.okFor cs.dim) (h : cs.applyOps ops = .ok cs') :
+    cs'.ok ∧ cs'.dim = cs.dim ∧ cs'.shape = cs.shape ∧
+      cs'.coordinate (List.replicate cs'.dim.toNat 0) = .ok cs'.origin ∧
+      ∀ v : List Int, v.length = cs'.dim.toNat → (cs'.coordinate (centerOf v) >>= cs'.voxel) = .ok v := by
+  obtain ⟨a, b, c⟩ := applyOps_ok ops cs cs' hcs hops h
+  exact ⟨a, b, c, coord_zero cs' a, fun v hv => center_roundtrip cs' a v hv⟩
+
+/-- `reset_origin()` puts the image into the box `[0, dimensions]` again, whatever its origin was. -/
+theorem reset_origin_default (cs cs' : CS) (h : cs.applyOp .resetOrigin = .ok cs') :
+    defaultOrigin cs.dim cs.dims = .ok cs'.origin ∧ cs'.dims = cs.dims ∧ cs'.shape = cs.shape ∧ cs'.dim = cs.dim := by
+  simp only [CS.applyOp] at h
+  cases hd : defaultOrigin cs.dim cs.dims with
+  | error e => rw [hd] at h; simp [Except.map] at h
+  | ok o => rw [hd] at h; simp only [Except.map] at h; injection h with h; subst h; exact ⟨rfl, rfl, rfl, rfl⟩
+
 /-! non-vacuity: a 3-D 3×1×5 system with non-default origin; voxel (−2, 0, 7) lies outside. -/
 def exCS : CS := ⟨.d3, [3, 1, 5], [3 / 2, 1 / 4, 10], [1000000, -7 / 3, 1 / 8]⟩
 
@@ -290,5 +311,8 @@ example : exCS.minCoordinate = .ok [1000000, -7 / 3 - 10, 1 / 8 - 3 / 2] ∧ exC
     exCS.numVoxelsAx (7 / 5) 0 = .ok 6 := by decide +kernel
 example : checkEqual exCS { exCS with dims := [3, 1 / 4, 10] } false =
     .ok (false, [.dimensions, .voxelSize, .oppositeVoxel]) := by decide +kernel
+
+example : (exCS.applyOps [.touch, .setOrigin [1, 2, 3], .touch, .resetOrigin, .touch]).toOption.map (·.origin) =
+    some [0, 10, 3 / 2] := by decide +kernel
 
 end Darsia.C01
